@@ -57,6 +57,8 @@ def _(self: Ref['mqtt.client.pubsubs.MQTTProtocol'], reason: Any):
     ensures(implies(old(conn_deferred_owned(self)), unchanged(self.connReq.deferred.d_fired)))
     ensures(fired_stay_fired())
     ensures(same_containers(self))
+    # the inbound QoS 2 window is never touched by a purge (C06: exactly-once delivery across reconnects)
+    ensures(forall(lambda k: contains(X(self), k) == old(contains(X(self), k)) and X(self)[k] == old(X(self)[k])))
 
 
 @loop('mqtt.client.pubsubs.MQTTProtocol._purgeSession', 0)
@@ -78,6 +80,7 @@ def _():
     invariant(forall(lambda k: contains(R(self), k) == old(contains(R(self), k)) and R(self)[k] == old(R(self)[k])))
     invariant(forall(lambda k: contains(S(self), k) == old(contains(S(self), k)) and S(self)[k] == old(S(self)[k])))
     invariant(forall(lambda k: contains(U(self), k) == old(contains(U(self), k)) and U(self)[k] == old(U(self)[k])))
+    invariant(forall(lambda k: contains(X(self), k) == old(contains(X(self), k)) and X(self)[k] == old(X(self)[k])))
     invariant(implies(old(alarms_set(self)), alarms_set(self)))
     invariant(implies(old(conn_deferred_owned(self)), unchanged(self.connReq.deferred.d_fired)))
     invariant(fired_stay_fired())
@@ -107,6 +110,7 @@ def _():
     invariant(forall(lambda k: implies(not old(contains(R(self), k)), not contains(R(self), k))))
     invariant(forall(lambda k: contains(S(self), k) == old(contains(S(self), k)) and S(self)[k] == old(S(self)[k])))
     invariant(forall(lambda k: contains(U(self), k) == old(contains(U(self), k)) and U(self)[k] == old(U(self)[k])))
+    invariant(forall(lambda k: contains(X(self), k) == old(contains(X(self), k)) and X(self)[k] == old(X(self)[k])))
     invariant(implies(old(alarms_set(self)), alarms_set(self)))
     invariant(implies(old(conn_deferred_owned(self)), unchanged(self.connReq.deferred.d_fired)))
     invariant(fired_stay_fired())
